@@ -1,22 +1,26 @@
 #!/usr/bin/env python3
-"""Function translator, anstyle rendering: crates/anstyle/src/color.rs -> coq/Generated/RenderFn.v (C05).
+"""Function translator, anstyle rendering: crates/anstyle/src/{color.rs,effect.rs,style.rs,reset.rs}
+-> coq/Generated/RenderFn.v (C05).  Notes: HACKING.d/render.md.
 
 TRANSLATED (tools/rs2v) into Gallina over the Rust data layout of DisplayBuffer
 (Model/Render.v: `rn_dbuf` = { buffer: [u8; 19], len }) and the colour types of the hand model
-(Generated/Style.v `ansi_color`; an Ansi256Color is its index, an RgbColor a triple):
-  DisplayBuffer::{write_str, write_code, as_str}
-  AnsiColor::{as_fg_str, as_bg_str, as_fg_buffer, as_bg_buffer, as_underline_buffer}
-  Ansi256Color::{index, from_ansi, as_fg_buffer, as_bg_buffer, as_underline_buffer},
-  `impl From<AnsiColor> for Ansi256Color`::from
-  RgbColor::{r, g, b, as_fg_buffer, as_bg_buffer, as_underline_buffer}
-  Color::{render_fg, render_bg, render_underline}    (the DisplayBuffer they return as `impl Display`)
-Proofs/RenderGen.v proves every translation equal to the hand model (Model/Render.v) the theorems
-of C05 are about, the 19-byte array + length related to the model's byte list by
-`rn_dbuf_abs` (= buffer[0..len], which is DisplayBuffer::as_str).
+(Generated/Style.v `ansi_color`; an Ansi256Color is its index, an RgbColor a triple, a Color the Rust enum
+`rn_color_view`, a Style the record of Model/Style.v):
+  color.rs   DisplayBuffer::{write_str, write_code, as_str, write_to}, impl Display for DisplayBuffer / NullFormatter,
+             AnsiColor::{as_fg_str, as_bg_str, as_*_buffer, render_fg, render_bg, on, on_default},
+             Ansi256Color::{index, from_ansi, as_*_buffer, render_fg, render_bg, on, on_default}, impl From<AnsiColor> / From<u8>,
+             RgbColor::{r, g, b, as_*_buffer, render_fg, render_bg, on, on_default}, impl From<(u8, u8, u8)>,
+             Color::{render_fg, render_bg, render_underline, write_fg_to, write_bg_to, write_underline_to, on, on_default},
+             the five impl From<_> for Color
+  effect.rs  impl Display for EffectsDisplay, Effects::write_to   (Effects::render / index_iter and
+             EffectIndexIter::next are the translations of Generated/StyleFn.v, named in the vocabulary)
+  reset.rs   Reset::render, impl Display for Reset
+  style.rs   Style::{render, fmt_to, render_reset, write_to, write_reset_to}, impl Display for Style / StyleDisplay
+Proofs/RenderGen.v proves every translation equal to the hand model (Model/Render.v) the theorems of C05 are
+about: the 19-byte array + length related to the model's byte list by `rn_dbuf_abs`; a Formatter is the hand
+model's `rn_fmt` over a scripted sink (`rn_fmtr`), `&mut dyn io::Write` the scripted writer of Spec/Io.v.
 
-NOT translated (hand-modelled in Model/Render.v, pinned by token hash below):
-  Style::fmt_to, impl Display for DisplayBuffer      core::fmt::Formatter / `dyn Display` plumbing
-  DisplayBuffer::write_to, Color::write_*_to         `&mut dyn io::Write` trait objects"""
+NOT translated: macros.rs (`escape!` is expanded by the vocabulary, the file is pinned by token hash)."""
 import os
 import sys
 
